@@ -2,7 +2,7 @@
 use soroban_sdk::{contract, contractimpl, contracttype, Address, BytesN, Env, Symbol, Val, Vec};
 use stellar_governance::timelock::{
     cancel_operation, execute_operation, get_min_delay, get_operation_ledger, get_operation_state, hash_operation,
-    schedule_operation, set_min_delay, Operation, OperationState,
+    schedule_operation, set_execute_operation, set_min_delay, Operation, OperationState,
 };
 
 #[contract]
@@ -18,6 +18,11 @@ impl TlWrap {
     }
     pub fn execute(e: &Env, target: Address, function: Symbol, args: Vec<Val>, predecessor: BytesN<32>, salt: BytesN<32>) -> Val {
         execute_operation(e, &Operation { target, function, args, predecessor, salt })
+    }
+    /// the library's other way of consuming an operation (used by self-administered controllers):
+    /// marks it executed without invoking the target
+    pub fn mark(e: &Env, target: Address, function: Symbol, args: Vec<Val>, predecessor: BytesN<32>, salt: BytesN<32>) {
+        set_execute_operation(e, &Operation { target, function, args, predecessor, salt })
     }
     pub fn cancel(e: &Env, id: BytesN<32>) {
         cancel_operation(e, &id)
